@@ -5,10 +5,31 @@ PROP = {
     "driver": "c06_gamma",
     "flavours": [("rel", 1.0), ("asan", 0.1)],
     "shards": {"quick": 8, "thorough": 16},
-    "rule": "placeholder",
-    "floors": {"quick": {"cases": 1000, "distinct_nontrivial": 100}, "thorough": {"cases": 1000, "distinct_nontrivial": 100}},
-    "technique": "runtime monitoring",
-    "level_text": "placeholder",
-    "level_note": "placeholder",
-    "assumptions": STD_ASSUME,
+    "rule": "a case is non-trivial when the point lies within 1 of a branch switch-over (x = a+1, a = 100, n = 170) or the continued-fraction / quadrature branch ran (tick counters "
+            "GammaQcf.term, GammaQint read before/after the call); distinct = hash of the arguments. GammaLn/Gamma on x in (0, 171] and beyond (overflow to inf), recurrence pairs; "
+            "Factorial for all n <= 170 in ascending, descending and random permutations with repeats, each order in a fresh child process (the memo table is a process global), 171 "
+            "must exit; Binomial_Coefficient for all 0 <= k <= n <= 400 row by row in varying call order; P, Q on a grid plus random (x,a) with a in (0,1e4], x in [0, a+40 sqrt(a)+40], "
+            "dense at x = a+1 +- {1e-3,1e-9} and a = 100 +- 1e-6; inverses for p in (1e-12, 1-1e-12)",
+    "floors": {"quick": {"cases": 250000, "distinct_nontrivial": 100000,
+                         "ticks": {"GammaPser.term": 1000000, "GammaQcf.term": 1000000, "GammaQint": 100000, "Inv_GammaP.halley": 30000},
+                         "clauses": {"gammaln-vs-lgammal": 35000, "gamma-recurrence": 20000, "factorial-recurrence-bit-exact": 4000, "factorial-above-170-exits": 24,
+                                     "binomial-vs-pascal-triangle": 80000, "binomial-pascal-rule": 80000, "pq-range-0-1": 300000, "pq-sum-to-one": 150000,
+                                     "p-accuracy-1e-12-a<=100": 90000, "p-accuracy-1e-3-a>100": 60000, "pq-monotone-in-x": 150000, "upper-plus-lower-equals-gamma": 100000,
+                                     "inv-gammap-residual-1e-7-a<=100": 12000, "inv-gammap-residual-1e-3-a>100": 6000, "inv-gammaq-residual-1e-7-a<=100": 5000}},
+               "thorough": {"cases": 7000000, "distinct_nontrivial": 3000000,
+                            "ticks": {"GammaPser.term": 100000000, "GammaQcf.term": 100000000, "GammaQint": 10000000},
+                            "clauses": {"p-accuracy-1e-12-a<=100": 2500000, "p-accuracy-1e-3-a>100": 2000000, "inv-gammap-residual-1e-7-a<=100": 300000}}},
+    "exhaustive": {"quick": ["Factorial: every n <= 170 in each generated call order", "Binomial_Coefficient: all 0 <= k <= n <= 400"],
+                   "thorough": ["Factorial: every n <= 170 in each generated call order", "Binomial_Coefficient: all 0 <= k <= n <= 400"]},
+    "technique": "runtime monitoring: reference-value oracles (lgammal/tgammal, Boost.Math gamma_p / gamma_q / gamma_p_inv in long double, exact long double Pascal triangle), identity and "
+                 "recurrence checkers, memo-table call orders in fresh child processes, tick counters proving that series, continued-fraction and quadrature branches all ran; ASan+UBSan build in parallel",
+    "level_text": "GammaLn, Gamma, Factorial, Binomial_Coefficient, GammaP/Q, the incomplete gamma functions and Inv_GammaP/Q of the real library were evaluated on hundreds of thousands "
+                  "(thorough: millions) of arguments incl. both sides of every branch switch-over and compared with independent long double references: GammaLn within 64 eps max(1,|lnG|), "
+                  "Gamma and its recurrence within 64 eps (1+|lnG|) relative, Factorial bit-exact recurrence in every call order (171 exits), Binomial against an exact Pascal triangle, "
+                  "P and Q in [0,1], summing to one, monotone in x and within 1e-12 (a <= 100) / 1e-3 (a > 100) of the reference, Upper + Lower = Gamma, and the inverses judged with the "
+                  "reference P so that an error in P cannot hide an equal error in its inverse. Exploration over sampled (x,a); Factorial and Binomial exhaustive.",
+    "level_note": "Trusted: Boost.Math and libm long double functions as references; 'a few ulp' is read on the scale of the logarithm that the Lanczos series computes (eps (1+|lnG|) for Gamma, "
+                  "the sum of the three |lnG| for Binomial with n > 170); inverse requests whose exact solution is below 1e-290 are counted as unrepresentable.",
+    "assumptions": STD_ASSUME + ["Inv_GammaP/Q requests whose exact answer is smaller than 1e-290 (tiny a, small p) are outside: no double solves them",
+                                 "tolerances 1e-12 / 1e-3 / 1e-7 are the numbers stated by the property"],
 }
